@@ -12,6 +12,9 @@ for id in $ids; do
   S=$(mktemp -d /var/tmp/pallas_mut_XXXXXX)
   rsync -a --exclude target --exclude .git /repo/ $S/
   if ! (cd $S && patch -p1 -s < /verif/seeded/$id/patch.diff); then
+    if grep -q '"superseded_by"' seeded/$id/meta.json 2>/dev/null; then
+      echo "$id: patch no longer applies — superseded by a later fix commit (see meta.json), skipped"; rm -rf $S; continue
+    fi
     echo "$id: patch does not apply"; fail=1; rm -rf $S; continue
   fi
   prop=$(jq -r '.property // empty' seeded/$id/meta.json 2>/dev/null | cut -c1-3); [ -z "$prop" ] && prop=${id%%-*}
